@@ -290,6 +290,7 @@ const prelude = `(set-option :produce-models true)
 (assert (= (len_s emptystr) 0))
 (assert (forall ((s Str)) (! (=> (= (len_s s) 0) (= s emptystr)) :pattern ((len_s s)))))
 (assert (forall ((a Str) (b Str)) (! (= (len_s (cat a b)) (+ (len_s a) (len_s b))) :pattern ((cat a b)))))
+(assert (forall ((a Str)) (! (and (= (cat a emptystr) a) (= (cat emptystr a) a)) :pattern ((cat a emptystr)) :pattern ((cat emptystr a)))))
 `
 
 // render produces a full script for one goal: all assertions plus (not goal) under guard.
